@@ -182,7 +182,7 @@ CHECKS["C07"] = {
             "targets, added hashes, remember indexes and the returned UpdateData. After every block: held leaves == (previous minus deleted) plus remembered adds "
             "(both directions), each paired with the model's position, proof hashes == model canonical proof, Verify accepts, and the proof equals Pollard.Prove "
             "for the same leaves. Non-trivial: contains a block with a non-empty cache before and after in which a cached leaf changes position or a leaf is "
-            "remembered. Counted: remembered last leaf, remembered leaf that is a lone root, remembering in a block that overwrites an empty root.",
+            "remembered. Counted: remembered last leaf, remembered leaf that is a lone root, remembering in a block that overwrites an empty root. In 2 of 3 cases a second stump / light client follows the SAME forest embedded behind 2^k (+2^j) opaque leaves, k up to 62 (layouts of up to 63 rows): positions are shifted by the independent geometry and everything is checked again there.",
     "assumptions": COMMON_ASSUME,
 }
 MANIFEST_TEXT["C07"] = {
@@ -199,7 +199,7 @@ CHECKS["C11"] = {
             "from the reference model only: PrevNumLeaves; ToDestroy (empty trees popped by the binary addition, post-block layout, destruction order); "
             "NewDelPos/NewDelHash (every pre-block node on a target->root path, ascending, with the compressed hash of what survives under it, zero if nothing); "
             "NewAddPos/NewAddHash (every added leaf and both children of every post-block inner node holding a new leaf, ascending, no duplicates). "
-            "Non-trivial: contains a block with >=1 deletion and >=2 additions.",
+            "Non-trivial: contains a block with >=1 deletion and >=2 additions. In 2 of 3 cases a second stump / light client follows the SAME forest embedded behind 2^k (+2^j) opaque leaves, k up to 62 (layouts of up to 63 rows): positions are shifted by the independent geometry and everything is checked again there.",
     "assumptions": COMMON_ASSUME,
 }
 MANIFEST_TEXT["C11"] = {
@@ -220,7 +220,7 @@ CHECKS["C08"] = {
             "leaf was added by the undone block, none is invented (only previously held leaves or leaves the block deleted), no leaf live before and after is "
             "lost, every held leaf is paired with the model's position, the proof hashes are the model's canonical ones and Verify accepts against the "
             "previous stump; the same exact check runs after every later Proof.Update (redo / other branch). Non-trivial: an undo with a non-empty cache "
-            "before and after of a block that both deleted and added.",
+            "before and after of a block that both deleted and added. In 2 of 3 cases a second stump / light client follows the SAME forest embedded behind 2^k (+2^j) opaque leaves, k up to 62 (layouts of up to 63 rows): positions are shifted by the independent geometry and everything is checked again there.",
     "assumptions": COMMON_ASSUME + ["leaves the undone block deleted may or may not be restored (documented as not restored): both accepted"],
 }
 MANIFEST_TEXT["C08"] = {
